@@ -28,6 +28,7 @@ import (
 	"time"
 
 	"github.com/influxdata/influxdb/pkg/limiter"
+	"github.com/influxdata/influxdb/pkg/verifhook"
 	"github.com/influxdata/influxdb/tsdb"
 )
 
@@ -1146,6 +1147,9 @@ func (c *Compactor) write(path string, iter KeyIterator, throttle bool) (err err
 
 		if !enabled {
 			return errCompactionAborted{}
+		}
+		if err := verifhook.FireErr("compact.block", path); err != nil {
+			return err
 		}
 		// Each call to read returns the next sorted key (or the prior one if there are
 		// more values to write).  The size of values will be less than or equal to our
